@@ -144,9 +144,10 @@ def judge_heap(case, impl, model):
     for p in impl.get("probes", []):
         if p["op"] == "copy" or "unavailable" in p or p.get("same"):
             continue
-        for (tag, via_back, depth), path in zip(p.get("shared_tags", []), p.get("shared", [])):
+        for t, path in zip(p.get("shared_tags", []), p.get("shared", [])):
+            tag, via_back, depth, behind_imm = (list(t) + [False])[:4]
             if p["root"] == 0:
-                if tag in ("ImmutableStructure", "tuple", "frozenset") or via_back:
+                if tag in ("ImmutableStructure", "tuple", "frozenset") or via_back or behind_imm:
                     continue
                 fails.append((f"copy-shares-mutable:{p['op']}:{tag}",
                               f"the {p['op']} copy of x holds the very object x holds at {'.'.join(path)} (a {tag}): "
